@@ -34,7 +34,7 @@ ASSUMPTIONS = ['definition grammar: result types bool and a, 0-2 arguments, righ
 RULE = ('one evaluation = one item description pushed through parse_item; distinct = distinct descriptions; non-trivial = accepted as a definition (then its defining equation went to the solver) '
         'or an extension was type-checked')
 EXPLANATION = 'accepted definition => defining equation (closed, all finite type instances, one symbol for the constant) is satisfiable, decided by z3'
-BUDGET_S = {'quick': 90, 'thorough': 900}
+BUDGET_S = {'quick': 240, 'thorough': 900}
 
 
 def bounds(tier):
